@@ -584,8 +584,8 @@ func (g *G) block(depth int, firstInItem bool, marker byte) Block {
 		case 4:
 			return HR{}
 		case 5:
-			if firstInItem {
-				continue
+			if firstInItem && coin(g.s, 1, 2) {
+				continue // (an item that begins with indented code: the marker is followed by one space, then the code's four)
 			}
 			n := 1 + g.s.Intn(3)
 			var ls []string
@@ -602,6 +602,9 @@ func (g *G) block(depth int, firstInItem bool, marker byte) Block {
 				}
 				if strings.TrimSpace(l) == "" {
 					l = ""
+				}
+				if i == 0 && firstInItem && strings.Trim(l, "*-_ \t") == "" {
+					l = g.word() + " " + l // "*     ***" is a thematic break, not an item holding code
 				}
 				ls = append(ls, l)
 			}
@@ -631,7 +634,7 @@ func (g *G) block(depth int, firstInItem bool, marker byte) Block {
 				continue
 			}
 			n := 1 + g.s.Intn(3)
-			return Quote{g.blocks(depth+1, n, false, false, 0)}
+			return Quote{C: g.blocks(depth+1, n, false, false, 0), Trail: coin(g.s, 1, 3)}
 		case 8, 9:
 			if depth >= 3 {
 				continue
@@ -724,7 +727,15 @@ func direct(prev, cur Block) bool {
 		return !isCode
 	case HTMLB:
 		return htmlType(p) <= 5
-	case Quote, List:
+	case Quote:
+		if p.Trail {
+			switch cur.(type) {
+			case Para, Heading, HR, FCode:
+				return true
+			}
+		}
+		return false
+	case List:
 		return false
 	}
 	return false
@@ -735,8 +746,12 @@ func (g *G) blocks(depth, n int, tight bool, inItem bool, marker byte) []Block {
 	for len(out) < n {
 		if tight && len(out) > 0 {
 			switch p := out[len(out)-1].(type) {
-			case Quote, List:
+			case List:
 				return out
+			case Quote:
+				if !p.Trail {
+					return out
+				}
 			case HTMLB:
 				if htmlType(p) > 5 {
 					return out
